@@ -406,7 +406,7 @@ class Audit:
         self.problems.append((code, path, detail))
 
 
-def audit(root, top, scope='', hashes=None, devmap=None, prior_in_use=()):
+def audit(root, top, scope='', hashes=None, devmap=None, prior_in_use=(), written=None):
     """Independent audit of the saved Manifest tree (C03/C13).  hashes=None
     skips the key-set clause."""
     a = Audit()
@@ -436,7 +436,10 @@ def audit(root, top, scope='', hashes=None, devmap=None, prior_in_use=()):
             f2 = probe(m._p(full))
             why = entry_matches(f2, e)
             fd = os.path.dirname(full)
-            if why is not None and (psw(scope, fd) or psw(fd, scope)):
+            # a sub-directory update answers for the Manifests it rewrote and for those inside
+            # its scope, not for stale references that lay beside its path before
+            relevant = (not scope) or psw(fd, scope) or (written is not None and (full in written or mp in written))
+            if why is not None and relevant:
                 a.add('manifest-entry-stale', full, why)
             if full in a.manifests:
                 continue
